@@ -6,6 +6,9 @@ M = core.MANAGER
 
 
 def check(ctx):
+    from . import core8
+
+    core8.relation_defaults(ctx, "C03")
     core2.sched_run_definitions(ctx, "C03", want_equiv=False)
     core2.mgr_runnable(ctx, "C03")
     core2.mgr_ready_dependencies(ctx, "C03")
